@@ -22,6 +22,10 @@ def violating(ctx, res):
         ctx.hits.append({"key": "C14:model-oracle:lookups-per-token", "oracle": "property predicate evaluated in Coq on the observation of a mismatching case: one limiter token buys at most one backend lookup, a refusal none",
                          "what": "observed lookups exceed what one limiter token buys (model: login_step_tries code_tries): " + (idx_line(ctx, "CasesC14_lookup.idx", i) or "case %d" % i),
                          "case": idx_line(ctx, "CasesC14_lookup.idx", i) or i})
+    for i in [int(x) for x in re.findall(r"\d+", res.get("c14_okta_violating") or "")][:5]:
+        ctx.hits.append({"key": "C14:model-oracle:lookups-per-token:okta", "oracle": "property predicate evaluated in Coq on the observation of a mismatching case: one limiter token buys at most one request to the Okta authn endpoint, a refusal none",
+                         "what": "observed requests to the identity provider exceed what one limiter token buys: " + (idx_line(ctx, "CasesC14_okta.idx", i) or "case %d" % i),
+                         "case": idx_line(ctx, "CasesC14_okta.idx", i) or i})
     for code in [int(x) for x in re.findall(r"\d+", res.get("c14_totp_violating") or "")][:5]:
         sc, step, cls = code // 1000000, (code % 1000000) // 10, code % 10
         name, what = TOTP_CLASS.get(cls, ("totp-other", "observed transition violates the statement"))
@@ -50,6 +54,7 @@ def run(ctx):
                               ("c14_lim_mismatches", "rate.Limiter.AllowN on explicit time stamps = exact token bucket model (knife edges of half a nanosecond of refill tolerated)"),
                               ("c14_order_mismatches", "ordering probe: what a backend that reads the limiter during its lookup sees, for every entry point = limiter state after Allow() of the model's login_step"),
                               ("c14_lookup_mismatches", "failing password backend (always / now and then / on the first lookup): status and number of lookups of every attempt = login_step_tries code_tries on the attempt's answer stream", "CasesC14_lookup.idx"),
+                              ("c14_okta_mismatches", "Okta as password backend (real lib/authenticators/okta against a local authn endpoint answering 200 SUCCESS / MFA_REQUIRED / other / undecodable, 401, 403, 429, 5xx): status and number of requests to the endpoint per attempt = login_step_tries code_tries over okta_answer", "CasesC14_okta.idx"),
                               ("c14_handler_mismatches", "measured handler sequence: every window obeys the theorem's inequality; fresh burst and refill after a pause are let through"),
                               ("c14_totp_mismatches", "validateUserTOTP verdict and rate-limit entry after every attempt, and every entry after every pass of the periodic cleanup, = model with the uint32 counter (simulated time)", "CasesC14_totp.idx")], "CasesC14.idx"),
         trusted=["golang.org/x/time/rate computes in float64; the model is exact and tolerates either verdict within half a nanosecond of refill around the threshold",
